@@ -81,6 +81,14 @@ def worlds(tier):
                         for opts in optsets:
                             wid += 1
                             yield make_world(wid, tv, [hp], rs, margin, depth=1), opts
+                        if margin == 1 and mixed and (k == 2 or (k == 3 and len(rs) == 1)):
+                            # a phased input (phased elsewhere, partly wrongly); with --only-snvs the other records
+                            # are not re-phased and must not stay in a phase set
+                            for opts in (dict(tag="PS", only_snvs=True), dict(tag="HP", only_snvs=True), dict(tag="PS")):
+                                wid += 1
+                                w = make_world(wid, tv, [hp], rs, margin, depth=1)
+                                w["prephased"] = True
+                                yield w, opts
                         if margin == 1 and (snv_only or k == 2):
                             # unphased genotypes spelled 1/0 in the input
                             for opts, sp in ((dict(tag="HP"), "mixed"), (dict(tag="PS"), "mixed"), (dict(tag="HP"), "desc")):
@@ -180,6 +188,27 @@ def make_world(wid, tv, haps, rs, margin, depth=1, reads2=None, two_chroms=False
 
 def judge(world, opts, scratch):
     paths = pw.materialize(world, scratch)
+    if world.get("prephased"):
+        # the input already carries a phasing from elsewhere: every heterozygous call spelled 1|0 in one phase set
+        # per chromosome (right for some variants, wrong for others)
+        pv = synth.parse_vcf(paths["vcf"])
+        lines = list(pv["header"]) + ['##FORMAT=<ID=PS,Number=1,Type=Integer,Description="Phase set identifier">', "\t".join(["#CHROM", "POS", "ID", "REF", "ALT", "QUAL", "FILTER", "INFO", "FORMAT"] + pv["samples"])]
+        first = {}
+        for rec in pv["records"]:
+            t = rec["line"].split("\t")
+            first.setdefault(rec["chrom"], rec["pos"])
+            calls = []
+            for c in t[9:]:
+                g = c.split(":")[0]
+                al = g.split("/")
+                if "|" not in g and len(al) == 2 and "." not in al and al[0] != al[1]:
+                    calls.append("|".join(sorted(al, reverse=True)) + f":{first[rec['chrom']]}")
+                else:
+                    calls.append(g + ":.")
+            t[8] = "GT:PS"
+            lines.append("\t".join(t[:9] + calls))
+        with open(paths["vcf"], "w") as f:
+            f.write("\n".join(lines) + "\n")
     parsed, traces, err = pw.run_phase(paths, scratch, **opts)
     viols = []
     info = {"phased2": 0, "sets2": 0, "selected_less": 0, "cost_nonzero": 0}
